@@ -46,6 +46,24 @@ pub fn check(r: &ExecResult) -> Vec<Finding> {
             None => f.push(fnd("state-torn", format!("get_state() inside on_notify returned {} which is not the state after any action", fmt_st(c.st)))),
         }
     }
+    for kind in ["read_in_before_reduce", "read_in_before_dispatch"] {
+        for c in cbs_of(r, kind) {
+            match index(c.st) {
+                Some(ix) => {
+                    reads.push((c.task, c.i, c.i, ix));
+                    if let Some(ai) = p.order.iter().position(|a| *a == c.act) {
+                        // before_reduce sees at least the previous action's state, before_dispatch
+                        // (like a subscriber) at least this action's
+                        let need = if kind == "read_in_before_reduce" { ai } else { ai + 1 };
+                        if ix < need {
+                            f.push(fnd("state-not-published-before-notify", format!("inside {} of action {}, get_state() returned the state of an older action than it must", kind, c.act)));
+                        }
+                    }
+                }
+                None => f.push(fnd("state-torn", format!("get_state() inside a middleware hook returned {} which is not the state after any action", fmt_st(c.st)))),
+            }
+        }
+    }
     // a read observes an action only after it has been reduced (never invented / early)
     for rd in &reads {
         if rd.3 > 0 {
@@ -69,7 +87,12 @@ pub fn check(r: &ExecResult) -> Vec<Finding> {
 pub fn scenarios(tier: Tier) -> Vec<Scenario> {
     let mut v = vec![];
     let mut add = |readers: u32, nreads: u32, np: u32, k: u32, subs: u8, bound: u32| {
-        let mut prog = producers(Program::new(StoreSpec::new(2, 2, Pol::Block)), np, k, |_, id| Op::Dispatch(Act::new(id)));
+        let mut spec = StoreSpec::new(2, 2, Pol::Block);
+        if subs & 4 != 0 {
+            spec.mws = 1;
+            spec.mw_reads = true;
+        }
+        let mut prog = producers(Program::new(spec), np, k, |_, id| Op::Dispatch(Act::new(id)));
         for rd in 0..readers {
             prog = prog.thread(&format!("r{}", rd), (0..nreads).map(|i| Op::GetState(i as i64)).collect());
         }
@@ -82,7 +105,8 @@ pub fn scenarios(tier: Tier) -> Vec<Scenario> {
         }
         main.extend([Op::SpawnAll, Op::JoinAll, Op::Stop, Op::GetState(99)]);
         prog = prog.main(main);
-        v.push(scn(format!("C08/R{}x{}P{}k{}subs{}", readers, nreads, np, k, subs), prog, bound, opts_elide(), |r, _| check(r)));
+        let o = if subs & 4 != 0 { verif_rt::RunOpts { elide: vec![ELIDE_RED, ELIDE_MW], ..Default::default() } } else { opts_elide() };
+        v.push(scn(format!("C08/R{}x{}P{}k{}subs{}", readers, nreads, np, k, subs), prog, bound, o, |r, _| check(r)));
     };
     match tier {
         Tier::Quick => {
@@ -90,6 +114,8 @@ pub fn scenarios(tier: Tier) -> Vec<Scenario> {
             add(1, 2, 1, 2, 1, 2);
             add(0, 0, 1, 2, 3, 2);
             add(2, 2, 1, 1, 0, 2);
+            add(1, 2, 1, 2, 4, 2);
+            add(0, 0, 2, 1, 5, 2);
         }
         Tier::Thorough => {
             for subs in 0..=3u8 {
@@ -101,6 +127,9 @@ pub fn scenarios(tier: Tier) -> Vec<Scenario> {
                 add(1, 2, 1, 1, subs, 3);
             }
             add(2, 3, 1, 1, 1, 3);
+            add(1, 2, 1, 2, 4, 3);
+            add(1, 2, 2, 1, 5, 2);
+            add(0, 0, 1, 2, 7, 2);
         }
     }
     v
